@@ -123,31 +123,17 @@ Example C16_reload_ok_order_nonvacuous :
 Proof. vm_compute. reflexivity. Qed.
 
 (* ---- a failed reload: restart-failed callbacks and nothing else of the old instance ---- *)
-(* FALSE of the code as written: when an OnShutdown callback of the old instance returns an error
-   during an otherwise successful reload, Restart reports failure and runs the restart-failed
-   callbacks although the old servers have been stopped, its shutdown callbacks have partly run
-   (the rest is skipped) and the NEW instance is the one live and serving (F-C16-1) *)
-Theorem C16_reload_fail_only_restart_failed_refuted :
-  let res := step (final init [OStart quirk_old]) (ORestart 0 quirk_new) in
-  snd res = RInst false 0 /\
-  In (EStop 0 0) (snd (fst res)) /\ In (ECb KShutdown 0 0) (snd (fst res)) /\
-  ~ In (ECb KShutdown 0 1) (snd (fst res)) /\ In (ECb KRestartFailed 0 0) (snd (fst res)) /\
-  In (EServe 1 0) (snd (fst res)) /\
-  map i_id (insts (fst (fst res))) = [1].
-Proof. exact reload_fail_refuted. Qed.
-Print Assumptions C16_reload_fail_only_restart_failed_refuted.
-
-(* TRUE whenever the old instance's OnShutdown callbacks do not fail — for every state, every
-   new configuration and every stage at which the reload fails (an OnRestart callback, parsing,
-   a directive's setup, MakeServers, an OnStartup callback of the new instance, Listen, taking
-   a listener over): the old instance stays exactly as it was (live, serving, wait group
-   unchanged) and its events are its restart callbacks up to the failing one and then ALL its
-   restart-failed callbacks; e2 is the attempt to start the new instance ... *)
-Theorem C16_reload_fail_only_restart_failed_partial :
+(* for every state, every old and every new configuration and every stage at which the reload
+   fails (an OnRestart callback, parsing, a directive's setup, MakeServers, an OnStartup callback
+   of the new instance, Listen, taking a listener over — there is no other: once the new
+   instance serves, the reload succeeds whatever the old instance's OnShutdown callbacks
+   return, F-C16-1 repaired): the old instance stays exactly as it was (live, serving, wait
+   group unchanged) and its events are its restart callbacks up to the failing one and then ALL
+   its restart-failed callbacks; e2 is the attempt to start the new instance ... *)
+Theorem C16_reload_fail_only_restart_failed :
   forall s h c s' ev h' o,
   step s (ORestart h c) = (s', ev, RInst false h') ->
   find_inst h (known s) = Some o ->
-  existsb cb_fail (c_shutdown (i_cfg o)) = false ->
   h' = h /\
   insts s' = insts s /\ known s' = known s /\ serving s' = serving s /\ once s' = once s /\
   (forall x, wg s' x = wg s x) /\
@@ -155,8 +141,20 @@ Theorem C16_reload_fail_only_restart_failed_partial :
     (e2 = [] \/ exists saved, start_plan c (next s) true (i_srv o) h = (e2, false, saved)) /\
     ev = cb_events KRestart h (upto_fail (c_restart (i_cfg o))) ++ e2
          ++ cb_events KRestartFailed h (labels (c_rfailed (i_cfg o))).
-Proof. exact reload_fail_partial. Qed.
-Print Assumptions C16_reload_fail_only_restart_failed_partial.
+Proof. exact reload_fail_only_restart_failed. Qed.
+Print Assumptions C16_reload_fail_only_restart_failed.
+
+(* the former refutation witness: an OnShutdown callback of the old instance returns an error
+   during the reload — the reload succeeds, ALL the old shutdown callbacks run, no
+   restart-failed callback does, and the new instance is the one live and serving *)
+Example C16_reload_ok_despite_old_shutdown_error :
+  let res := step (final init [OStart quirk_old]) (ORestart 0 quirk_new) in
+  snd res = RInst true 1 /\
+  In (EStop 0 0) (snd (fst res)) /\ In (ECb KShutdown 0 0) (snd (fst res)) /\
+  In (ECb KShutdown 0 1) (snd (fst res)) /\ ~ In (ECb KRestartFailed 0 0) (snd (fst res)) /\
+  In (EServe 1 0) (snd (fst res)) /\
+  map i_id (insts (fst (fst res))) = [1].
+Proof. exact reload_ok_despite_shutdown_error. Qed.
 
 (* ... which logs only the new instance's own set-up, startup callbacks and listeners, and File()
    of old listeners: no Stop, no shutdown / final-shutdown callback, nothing served *)
@@ -167,7 +165,7 @@ Theorem C16_failed_reload_start_events :
 Proof. exact failed_reload_start_events. Qed.
 Print Assumptions C16_failed_reload_start_events.
 
-Example C16_reload_fail_partial_nonvacuous :
+Example C16_reload_fail_only_restart_failed_nonvacuous :
   snd (step (final init [OStart quirk_new])
             (ORestart 0 (mkCfg false false false [] [mkCb 0 false; mkCb 1 true] [] [] [] [] []))) = RInst false 0.
 Proof. vm_compute. reflexivity. Qed.
@@ -219,9 +217,9 @@ Print Assumptions C16_live_instances_distinct.
 
 (* [wf_from init ops]: the embedding program reloads only instances that are live, not after
    process shutdown began, and does not call Instance.ShutdownCallbacks itself.  Over EVERY such
-   history (any starts, successful and failed reloads — including the F-C16-1 kind —, stops,
-   signals) the shutdown callbacks of every instance run at most once, in order: not at all, up
-   to the first error (reload), or all of them; instances that never started run none *)
+   history (any starts, successful and failed reloads, stops, signals) the shutdown callbacks of
+   every instance run at most once, in order: not at all, or all of them (also when some of them
+   return errors during a reload); instances that never started run none *)
 Theorem C16_shutdown_callbacks_at_most_once :
   forall ops,
   wf_from init ops ->
